@@ -45,6 +45,13 @@ theorem guards_source :
       "UserDataHeader.ConcatenatedHeader: if data, ok := h[0x00]; ok && len(data) >= 3 { return &ConcatenatedHeader{ Reference: uint16(data[0]), TotalParts: data[1], Sequence: data[2], } } else if data, ok = h[0x08]; ok && len(data) >= 4 { return &ConcatenatedHeader{ Reference: binary.BigEndian.Uint16(data[0:2]), TotalParts: data[2], Sequence: data[3], } }",
       "UserDataHeader.ConcatenatedHeader: return nil"] := by decide +kernel
 
+/-- `p.No[0]` in Address.String sits behind `len(p.No) > 0` -/
+theorem address_string_guard :
+    pduGuards.filter (fun g => g.startsWith "pdu/address.go Address.String") =
+      ["pdu/address.go Address.String: len(p.No) > 0"] ∧
+    pduPanicSites.filter (fun p => p.1.startsWith "pdu/address.go") =
+      [("pdu/address.go|Address.String|index", 1)] := by decide +kernel
+
 theorem state_table : messageStateNames.length = 10 := by decide +kernel
 
 /-! ## theorems -/
@@ -66,7 +73,15 @@ theorem C11_message_state_total (m : Nat) : (messageStateString messageStateName
   obtain ⟨s, h⟩ := messageStateString_ok messageStateNames m
   rw [h]; rfl
 
+/-- Address.String (and with it UnsuccessfulRecord.String) returns for every address, including
+an international ISDN address with an empty number -/
+theorem C11_address_string_total (a : Addr) : (addressString a).isPanic = false := by
+  obtain ⟨s, h⟩ := addressString_ok a
+  rw [h]; rfl
+
 /-! ## non-vacuity -/
+example : addressString ⟨1, 1, []⟩ = .ok [] := by decide
+example : addressString ⟨1, 1, [49]⟩ = .ok [43, 49] := by decide
 example : concatHeader (some [(0, [1])]) = .ok none := by decide
 example : concatHeader (some [(0, [1]), (8, [0xF4, 0x2E, 2, 1])]) = .ok (some ⟨62510, 2, 1⟩) := by decide
 example : messageStateString messageStateNames 10 = .ok "10" := by decide +kernel
